@@ -138,3 +138,134 @@ example :
     t.state = .finished ∧ t.tried = [(0, .failed 111), (1, .failed ETIMEDOUT), (2, .ok)] := by decide
 
 end XcmModel.C13
+
+/-! ## the whole tconnect instance: Happy Eyeballs runs one track per address family -/
+namespace XcmModel.C13tc
+open XcmModel XcmModel.Tconnect
+
+theorem loop_inprog_mono (ts : List Track) : ∀ (s : List Tok) (tr : List String) (fa : Nat),
+    (tcGetFdLoop ts s tr true fa).2.2.2.2.1 = true ∨ (tcGetFdLoop ts s tr true fa).2.1 ≠ none ∨ (tcGetFdLoop ts s tr true fa).2.2.2.2.2.2 = true := by
+  induction ts with
+  | nil => intro s tr fa; left; rfl
+  | cons t rest ih =>
+    intro s tr fa
+    unfold tcGetFdLoop
+    rcases hp : trackGetFd t s tr with ⟨t1, r, s1, tr1⟩
+    cases r with
+    | fd f => right; left; simp
+    | abort => right; right; simp
+    | err e =>
+      simp only
+      by_cases he : e = EAGAIN
+      · simp only [he, if_true]
+        rcases ih s1 tr1 fa with h | h | h
+        · left; exact h
+        · right; left; exact h
+        · right; right; exact h
+      · simp only [he, if_false]
+        rcases ih s1 tr1 e with h | h | h
+        · left; exact h
+        · right; left; exact h
+        · right; right; exact h
+
+/-- the loop over the tracks ends without a descriptor, without a track in progress and without an assertion only if
+every track has failed -/
+theorem loop_all_failed (ts : List Track) : ∀ (s : List Tok) (tr : List String) (fa : Nat),
+    (tcGetFdLoop ts s tr false fa).2.1 = none → (tcGetFdLoop ts s tr false fa).2.2.2.2.1 = false →
+    (tcGetFdLoop ts s tr false fa).2.2.2.2.2.2 = false → ∀ t ∈ (tcGetFdLoop ts s tr false fa).1, t.state = .bad := by
+  induction ts with
+  | nil => intro s tr fa _ _ _ t ht; cases ht
+  | cons t rest ih =>
+    intro s tr fa
+    unfold tcGetFdLoop
+    rcases hp : trackGetFd t s tr with ⟨t1, r, s1, tr1⟩
+    have hst : (r = .err t1.bad ∧ t1.state = .bad) ∨ r = .err EAGAIN ∨ (∃ f, r = .fd f) ∨ r = .abort := by
+      unfold trackGetFd at hp
+      rcases hq : process t s tr with ⟨t0, s0, tr0⟩
+      rw [hq] at hp
+      simp only at hp
+      cases hs : t0.state <;> simp only [hs, Prod.mk.injEq] at hp <;> obtain ⟨h1, h2, _, _⟩ := hp <;> subst h1 <;> subst h2
+      all_goals first
+        | exact Or.inl ⟨rfl, hs⟩
+        | exact Or.inr (Or.inl rfl)
+        | exact Or.inr (Or.inr (Or.inl ⟨_, rfl⟩))
+        | exact Or.inr (Or.inr (Or.inr rfl))
+    rcases hst with ⟨hr, hb⟩ | hr | ⟨f, hr⟩ | hr
+    · subst hr
+      simp only
+      by_cases he : t1.bad = EAGAIN
+      · simp only [he, if_true]
+        intro hn hi ha
+        rcases loop_inprog_mono rest s1 tr1 fa with h | h | h
+        · rw [h] at hi; cases hi
+        · exact absurd hn h
+        · rw [h] at ha; cases ha
+      · simp only [he, if_false]
+        intro hn hi ha t' ht'
+        rcases List.mem_cons.mp ht' with h | h
+        · rw [h]; exact hb
+        · exact ih s1 tr1 t1.bad hn hi ha t' h
+    · subst hr
+      simp only [if_true]
+      intro hn hi ha
+      rcases loop_inprog_mono rest s1 tr1 fa with h | h | h
+      · rw [h] at hi; cases hi
+      · exact absurd hn h
+      · rw [h] at ha; cases ha
+    · subst hr; intro hn; simp at hn
+    · subst hr; intro _ _ ha; simp at ha
+
+/-- **tconnect_get_connected_fd reports a failure only when every track has failed**: as long as a track of either
+family is still connecting (or waiting out its head-start delay) the answer is EAGAIN, and a track that got connected
+is handed out - so with Happy Eyeballs an accepting address of either family is not masked by the other family's failure -/
+theorem C13_tc_fails_only_when_all_tracks_failed (tc : TC) (s : List Tok) (e : Nat)
+    (h : (tcGetFd tc s).2.1 = .err e) (he : e ≠ EAGAIN) : ∀ t ∈ (tcGetFd tc s).1.tracks, t.state = .bad := by
+  unfold tcGetFd at h ⊢
+  rcases hl : tcGetFdLoop tc.tracks s [] false ENOENT with ⟨ts, f, s', tr, inprog, fatal, ab⟩
+  rw [hl] at h
+  simp only at h ⊢
+  have key := loop_all_failed tc.tracks s [] ENOENT
+  rw [hl] at key
+  simp only at key
+  cases ab with
+  | true => simp at h
+  | false =>
+    cases f with
+    | some fam => simp at h
+    | none =>
+      cases inprog with
+      | true => simp at h; exact absurd h.symm he
+      | false => exact key rfl rfl rfl
+
+/-- Happy Eyeballs: one track per address family present in the answer, each confined to its own family's descriptor;
+the IPv4 track starts after the head-start delay exactly when there are IPv6 addresses -/
+theorem C13_happy_one_track_per_family (addrs : List Fam) (hl : Bool) (s : List Tok) :
+    let tc := (tcConnect .happy addrs hl s).1
+    tc.tracks.length = (if addrs.any (· == .v4) then 1 else 0) + (if addrs.any (· == .v6) then 1 else 0) ∧
+    (∀ t ∈ tc.tracks, (t.fd4 = true ∧ t.fd6 = false) ∨ (t.fd4 = false ∧ t.fd6 = true)) := by
+  intro tc
+  have fdOf : ∀ (a : List Fam) (f4 f6 h d : Bool) (s : List Tok) (tr : List String),
+      (trackCreate a f4 f6 h d s tr).1.fd4 = f4 ∧ (trackCreate a f4 f6 h d s tr).1.fd6 = f6 := by
+    intro a f4 f6 h d s tr
+    have g := trackCreate_good a f4 f6 h d s tr
+    exact ⟨g.2.2.1, g.2.2.2.1⟩
+  show (tcConnect .happy addrs hl s).1.tracks.length = _ ∧ ∀ t ∈ (tcConnect .happy addrs hl s).1.tracks, _
+  unfold tcConnect
+  simp only
+  cases h4 : addrs.any (· == .v4) <;> cases h6 : addrs.any (· == .v6) <;> simp only [if_true, if_false, Bool.false_eq_true]
+  · exact ⟨rfl, fun t ht => by cases ht⟩
+  · refine ⟨rfl, fun t ht => ?_⟩
+    simp only [List.nil_append, List.mem_singleton] at ht
+    subst ht
+    exact Or.inr (fdOf _ _ _ _ _ _ _)
+  · refine ⟨rfl, fun t ht => ?_⟩
+    simp only [List.append_nil, List.mem_singleton] at ht
+    subst ht
+    exact Or.inl (fdOf _ _ _ _ _ _ _)
+  · refine ⟨rfl, fun t ht => ?_⟩
+    simp only [List.cons_append, List.nil_append, List.mem_cons, List.mem_singleton, List.not_mem_nil, or_false] at ht
+    rcases ht with ht | ht <;> subst ht
+    · exact Or.inl (fdOf _ _ _ _ _ _ _)
+    · exact Or.inr (fdOf _ _ _ _ _ _ _)
+
+end XcmModel.C13tc
